@@ -62,7 +62,9 @@ func (te *tableEngine) updateGameState(gs *pokerface.GameState) {
 			te.emitErrorEvent("onGameClosed", "", err)
 		}
 	default:
+		te.lock.Lock()
 		te.updateCurrentActionEndAt(event, gs)
+		te.lock.Unlock()
 		te.emitEvent(gs.Status.CurrentEvent, "")
 		te.emitTableStateEvent(TableStateEvent_GameUpdated)
 		if event == pokerface.GameEvent_RoundClosed {
